@@ -371,4 +371,17 @@ def c15_copy(kind="grouped", x=3):
     got = {k: getattr(r, k) for k in want}
     return {"violates": got != want, "detail": f"init_from_record({kind} source): the copy holds {got!r}, expected {want!r}"}
 
-CALLS = {"c15_copy": c15_copy, "c15_rewrite_history": c15_rewrite_history, "c15_extend": c15_extend, "c15_timestamps": c15_timestamps, "c15_grouped_view": c15_grouped_view, "c15_colliding": c15_colliding, "c15_grouped_replace": c15_grouped_replace, "c15_grouped_collision": c15_grouped_collision, "c15_ts_collision": c15_ts_collision, "c15_ts_unset": c15_ts_unset, "c15_grouped": c15_grouped, "c15_rewrite": c15_rewrite, "c15_sweep": c15_sweep}
+
+def c15_replace_self(kind="plain"):
+    from flow.record import GroupedRecord, RecordDescriptor
+
+    r = RecordDescriptor("c15/rs", [("string", "self"), ("varint", "n")])(**{"self": "old", "n": 4})
+    src = r if kind == "plain" else GroupedRecord("c15/rg", [r])
+    try:
+        c = src._replace(**{"self": "new"})
+        got = (getattr(c, "self"), c.n, getattr(src, "self"))
+    except Exception as e:
+        got = f"{type(e).__name__}: {e}"
+    return {"violates": got != ("new", 4, "old"), "detail": f"_replace(self='new') on a {kind} record with the fields self='old', n=4: {got!r}"}
+
+CALLS = {"c15_replace_self": c15_replace_self, "c15_copy": c15_copy, "c15_rewrite_history": c15_rewrite_history, "c15_extend": c15_extend, "c15_timestamps": c15_timestamps, "c15_grouped_view": c15_grouped_view, "c15_colliding": c15_colliding, "c15_grouped_replace": c15_grouped_replace, "c15_grouped_collision": c15_grouped_collision, "c15_ts_collision": c15_ts_collision, "c15_ts_unset": c15_ts_unset, "c15_grouped": c15_grouped, "c15_rewrite": c15_rewrite, "c15_sweep": c15_sweep}
